@@ -107,6 +107,17 @@ Definition ops_keys (op : string) (args : list string) : option string :=
             Some (show_fields (bindr (SK x) (fun a => Ok [skx (sk_mul_u8 a n)]))) else None))
         else None
     | _ => None end
+  else if String.eqb op "ident" then
+    (* pub(a+b), pub a + pub b, a*(b*G), pub(ab), (A+B)-B, A *)
+    match args with
+    | [x; y] => with_hex x (fun x => with_hex y (fun y =>
+        Some (show_fields (bindr (SK x) (fun a => bindr (SK y) (fun b =>
+          let A := pk_from_priv a in let B := pk_from_priv b in
+          bindr (pk_add A B) (fun AB =>
+          bindr (sk_mul_pk a B) (fun aB =>
+          bindr (pk_sub AB B) (fun back =>
+          Ok [hx (pk_from_priv (sk_add a b)); hx AB; hx aB; hx (pk_from_priv (sk_mul a b)); hx back; hx A])))))))))
+    | _ => None end
   else if String.eqb op "torsion" then
     match args with
     | [i] => with_N i (fun i => if i <? 8 then Some ("OK " ++ hx (compress (tors (Z.of_N i)))) else None)
